@@ -1,10 +1,117 @@
 import KawinV.Proto
-/-! driver verbs for C13 (stub: no verbs yet) -/
+import KawinV.Model.TempSched
+import KawinV.Model.Lookup
+/-! driver verbs for C13 (Float instance of the schedule and lookup models).
+Each line is a complete case: the whole constructor/setter sequence, or the whole call history. -/
 namespace KawinV.Drv.C13
-open KawinV.Proto
+open KawinV.Proto KawinV.TempSched KawinV.Lookup
+
+/-- the callable family used on both sides: hold `a` until `c`, then ramp with rate `b` -/
+def rampFn (a b c : Float) : Float → Float := fun t => if t < c then a else a + b * (t - c)
+/-- diffusion callable `f(z,t) = a + b*t + c*z` -/
+def rampFnZ (a b c : Float) : List Float → Float → List Float := fun z t => z.map (fun zi => a + b * t + c * zi)
+
+def args {φ : Type} (mk : Float → Float → Float → φ) : P (Args Float φ) := do
+  let k ← tok
+  match k with
+  | "o" => pure .other
+  | "s" => do let T ← flt; pure (.scalar T)
+  | "f" => do let a ← flt; let b ← flt; let c ← flt; pure (.func (mk a b c))
+  | "2" => do let ts ← flts; let Ts ← flts; pure (.two ts Ts)
+  | _ => failure
+
+inductive TOp (φ : Type) where
+  | ctor (a : Args Float φ) | set (a : Args Float φ)
+  | iso (T : Float) | arr (ts Ts : List Float) | fn (f : φ)
+
+def top {φ : Type} (mk : Float → Float → Float → φ) : P (TOp φ) := do
+  let k ← tok
+  match k with
+  | "C" => do let a ← args mk; pure (.ctor a)
+  | "S" => do let a ← args mk; pure (.set a)
+  | "I" => do let T ← flt; pure (.iso T)
+  | "A" => do let ts ← flts; let Ts ← flts; pure (.arr ts Ts)
+  | "F" => do let a ← flt; let b ← flt; let c ← flt; pure (.fn (mk a b c))
+  | _ => failure
+
+def optS (o : Option Float) : String := match o with | some v => fout v | none => "E"
+def optL (o : Option (List Float)) : String := match o with | some v => flist v | none => "E"
+
+def pApply (s : PState Float) : TOp (Float → Float) → PState Float
+  | .ctor a => PState.ctor a
+  | .set a => s.setParams a
+  | .iso T => s.setIso T
+  | .arr ts Ts => s.setArr ts Ts
+  | .fn f => s.setFn f
+
+/-- ts.prec  nOps op…  nTimes t…   → per op: flag and the value (or E) at every time -/
+def prec : P String := do
+  let ops ← lst (top rampFn); let ts ← flts
+  let step := fun (acc : PState Float × List String) (o : TOp (Float → Float)) =>
+    let s := pApply acc.1 o
+    (s, acc.2 ++ [bstr s.isIso ++ " " ++ " ".intercalate (ts.map (fun t => optS (s.eval t)))])
+  let r := ops.foldl step (PState.ctor .other, [])
+  pure (" ".intercalate r.2)
+
+def dApply (s : DState Float) : TOp (List Float → Float → List Float) → DState Float
+  | .ctor a => DState.ctor a
+  | .set a => DState.ctor a   -- the diffusion class has no setTemperatureParameters; not generated
+  | .iso T => s.setIso T
+  | .arr ts Ts => s.setArr ts Ts
+  | .fn f => s.setFn f
+
+/-- ts.diff  nOps op…  z  nTimes t…   → per op, per time: the node temperatures (or E) -/
+def diff : P String := do
+  let ops ← lst (top rampFnZ); let z ← flts; let ts ← flts
+  let step := fun (acc : DState Float × List String) (o : TOp (List Float → Float → List Float)) =>
+    let s := dApply acc.1 o
+    (s, acc.2 ++ [" ".intercalate (ts.map (fun t => optL (s.eval z t)))])
+  let r := ops.foldl step (DState.ctor .other, [])
+  pure (" ".intercalate r.2)
+
+/-- interp  x xp fp → np.interp(x, xp, fp, fp[0], fp[-1]) or E -/
+def interp : P String := do
+  let x ← flt; let xp ← flts; let fp ← flts
+  pure (optS (npInterp x xp fp))
+
+def kop : P (Op Float) := do
+  let k ← tok
+  match k with
+  | "p" => pure .pre
+  | "d" => do let t ← flt; pure (.dep t)
+  | "P" => do let t ← flt; pure (.post t)
+  | "r" => pure .remesh
+  | "e" => pure .extend
+  | _ => failure
+
+def pair : P (Float × Float) := do let a ← flt; let b ← flt; pure (a, b)
+
+def showObs (o : Obs Float) : String :=
+  s!"{fout o.cur} {bstr o.rebuilt} {fout o.eqT} {fout o.dTemp} {flist o.tabT}"
+
+def showRun {σ : Type} (s : KState Float σ) : String :=
+  let obs := s.obs.reverse
+  let sl := s.slices.reverse
+  s!"{obs.length} " ++ " ".intercalate (obs.map showObs) ++ s!" {sl.length} " ++
+    " ".intercalate (sl.map (fun x => s!"{fout x.time} {fout x.temp} {fout x.eqT}"))
+
+/-- lk.run  variant(0 = as it was, 1 = as it is)  maxTempChange  nPairs (t T)…  nOps op…
+    → every growth-rate call (cur rebuilt eqT dTemp tabT) and every recorded slice (time temp eqT) -/
+def lkrun : P String := do
+  let v ← nat; let mx ← flt; let pairs ← lst pair; let ops ← lst kop
+  let sched : Float → Float := fun t =>
+    match pairs.find? (fun p => p.1 == t) with
+    | some p => p.2
+    | none => 0.0 / 0.0
+  if v == 0 then pure (showRun (run (implOld mx) sched ops))
+  else pure (showRun (run (implNew mx) sched ops))
 
 def handle (verb : String) : Option (P String) :=
   match verb with
+  | "ts.prec" => some prec
+  | "ts.diff" => some diff
+  | "interp" => some interp
+  | "lk.run" => some lkrun
   | _ => none
 
 end KawinV.Drv.C13
